@@ -154,10 +154,10 @@ func TestC16(t *testing.T) {
 		contexts := c16Contexts()
 		c.Sub("strings", func(s *Sub) {
 			var k int64
-			for _, v := range []string{"", "abc", "12", "০৫", " ", "k", "1.5", "nan"} {
+			for _, v := range []string{"", "abc", "12", "০৫", " ", "k", "1.5", "nan", "সম\u09df", "ক\u09c7\u09be", "cafe\u0301", "\u09dc"} {
 				c.c16Group(s, "strings", fmt.Sprintf("%q", v), c16StringProducers(v), contexts, &k)
 			}
-			c.Ev.MarkExhaustive(fmt.Sprintf("%d contexts x 8 string values x every producer against the literal producer (8-10 producers each)", len(contexts)))
+			c.Ev.MarkExhaustive(fmt.Sprintf("%d contexts x 12 string values (incl. strings that are not NFC-stable) x every producer against the literal producer (8-10 producers each)", len(contexts)))
 		})
 		c.Sub("numbers", func(s *Sub) {
 			var k int64
